@@ -67,10 +67,16 @@ def r02_1(ctx, m):
         ys = [n for n in walk_own(f.node) if isinstance(n, (ast.Yield, ast.YieldFrom))]
         if ys:
             gens.append(f)
+    # the generators other modules consume; a generator only delegated to (`yield from helper(...)`) is analysed inlined
+    public = [g for g in gens if any(cf.module is not conv for cf, _ in repo.callers_of(g))]
+    gens = public or gens
     ctx.require_count("R02.1", len(gens), 2, conv.relpath, "streaming generator functions")
     conv_funcs = {m.to_unstable[0].qualname, m.to_stable[0].qualname}
-    for g in gens:
-        ctx.analysed_func(g)
+    from ..core import tail_inlined
+
+    for g0 in gens:
+        ctx.analysed_func(g0)
+        g = tail_inlined(repo, g0)
         loops = [n for n in g.node.body if isinstance(n, ast.For) and "read_file" in norm(n.iter)]
         if len(loops) != 1:
             ctx.violated("R02.1", g.where(), "the generator does not stream the parsed records of the input with one loop", key_of(g, "stream-loop"))
